@@ -7,7 +7,7 @@ open Httpcache
 
 def Hist.reqOf (h : Hist) (n : Nat) : Option ReqIn := h.reqs.find? (·.n = n)
 
-def normOf (ri : ReqIn) : Str := Spec.urlNorm ri.req.scheme ri.req.host ri.req.path ri.req.query
+def normOf (ri : ReqIn) : Str := Spec.urlNormQ ri.req.scheme ri.req.host ri.req.path ri.req.query ri.req.forceQuery
 
 def selCanon (field : Str) (v : Option Str) : Str :=
   Spec.selCanon Generated.byOrderInsensitive Generated.byCaseInsensitive Generated.byTimeInsensitive field v
@@ -79,7 +79,7 @@ def locTargets (h : Hist) (ri : ReqIn) (x : Ex) : List Str :=
         | some rp => Header.has rp.resp.header l.hdr
         | none => false
       if present && Spec.sameOrigin ri.req.scheme ri.req.host l.g.scheme l.g.host
-      then some (Spec.urlNorm l.g.kScheme l.g.kHost l.g.kPath l.g.kQuery) else none
+      then some (Spec.urlNormQ l.g.kScheme l.g.kHost l.g.kPath l.g.kQuery l.g.kForceQuery) else none
 
 def monC07 (h : Hist) : Option String :=
   h.reqs.findSome? fun rm => do
